@@ -234,6 +234,162 @@ theorem toString_eq_spec (x lg : FV)
       exact this
 
 
+/-! ## ToInteger and the RangeError conditions (§15.7.4.2/5/6/7) -/
+
+theorem lt_zero_pos (m : Nat) (e : Int) (hm : m ≠ 0) : lt zero (.fin false m e) = true := by
+  simp only [lt, zero, cmpReal, alignInt]
+  have h2 : ∀ k, (0 : Int) < (m : Int) * 2 ^ k := by
+    intro k
+    have h2 : 0 < m * 2 ^ k := Nat.mul_pos (Nat.pos_of_ne_zero hm) (Nat.pow_pos (by decide))
+    have h3 : (0 : Int) < ((m * 2 ^ k : Nat) : Int) := by exact_mod_cast h2
+    push_cast at h3
+    exact h3
+  simp [h2]
+
+theorem lt_zero_neg (m : Nat) (e : Int) : lt zero (.fin true m e) = false := by
+  simp only [lt, zero, cmpReal, alignInt]
+  generalize (e - (if (0:Int) ≤ e then 0 else e)).toNat = k
+  have h3 : (0 : Int) ≤ ((m * 2 ^ k : Nat) : Int) := Int.natCast_nonneg _
+  push_cast at h3
+  simp
+  constructor
+  · omega
+  · split <;> simp
+
+/-- otto's toIntegerFloat (floor for positive, ceil otherwise) is ES5 ToInteger (§9.4) on every value -/
+theorem toInteger_eq (f : FV) : toIntegerFloat f = Spec.toInteger f := by
+  cases f with
+  | nan => rfl
+  | inf s => rfl
+  | fin s m e =>
+    simp only [toIntegerFloat, Spec.toInteger, isInf, isNaN]
+    by_cases hi : isIntegral m e = true
+    · simp [floor, ceil, trunc, hi]
+    · cases s with
+      | false =>
+        have hm : m ≠ 0 := by
+          intro h; subst h; simp [isIntegral] at hi
+        simp [lt_zero_pos m e hm, floor, trunc, hi]
+      | true =>
+        simp [lt_zero_neg m e, ceil, trunc, hi]
+
+
+theorem ofInt_zero : ofInt 0 = zero := by decide
+theorem ofInt_one : ofInt 1 = one := by decide
+
+/-- C06.range_errors (toFixed): RangeError exactly when ToInteger(fractionDigits) ∉ [0, 20], for every
+    argument (all doubles, NaN, ±∞, undefined) and every receiver. -/
+theorem toFixed_range (L : Lib) (x lg : FV) (a : Arg) :
+    toFixed L x lg a = .rangeError ↔ Spec.toFixed x a = .rangeError := by
+  simp only [toFixed, Spec.toFixed, toInteger_eq, Spec.argInt, Spec.ltI, Spec.gtI, ofInt_zero]
+  constructor
+  · intro h; split at h
+    · rename_i c; rw [if_pos c.symm]
+    · simp at h
+  · intro h; split at h
+    · rename_i c; rw [if_pos c.symm]
+    · simp at h
+
+/-- C06.range_errors (toString radix): RangeError exactly when ToInteger(radix) ∉ [2, 36] -/
+theorem radix_range (L : Lib) (x lg : FV) (a : Arg) :
+    numberToString L x lg a = .rangeError ↔ Spec.toStringRadix x a = some .rangeError := by
+  cases a with
+  | undef =>
+    have h1 : Spec.ltI (ofInt 10) 2 = false := by decide
+    have h2 : Spec.gtI (ofInt 10) 36 = false := by decide
+    have h3 : (Spec.intOf (ofInt 10)).toNat = 10 := by decide
+    simp [numberToString, Spec.toStringRadix, h1, h2, h3]
+  | num r =>
+    simp only [numberToString, Spec.toStringRadix, toInteger_eq, Spec.ltI, Spec.gtI]
+    constructor
+    · intro h; split at h
+      · rename_i c; rw [if_pos c]
+      · split at h <;> simp at h
+    · intro h; split at h
+      · rename_i c; rw [if_pos c]
+      · rename_i c
+        split at h
+        · simp at h
+        · cases x with
+          | nan => simp at h
+          | inf s => simp at h
+          | fin s m e => simp only at h; repeat (first | (split at h) | (simp at h))
+
+/-- C06.range_errors (toExponential), lower bound: for a finite receiver and ToInteger(arg) ≤ 20 the
+    model throws RangeError exactly when ES5 does (the missing upper bound is Dev toExponential_range). -/
+theorem toExponential_range_partial (L : Lib) (s : Bool) (m : Nat) (e : Int) (a : Arg)
+    (h20 : Spec.gtI (Spec.argInt a) 20 = false) :
+    toExponential L (.fin s m e) a = .rangeError ↔ Spec.toExponential (.fin s m e) a = .rangeError := by
+  cases a with
+  | undef => simp [toExponential, Spec.toExponential, isNaN, Arg.isDefined]
+  | num v =>
+    simp only [Spec.argInt, Arg.toFloat] at h20
+    simp only [toExponential, Spec.toExponential, isNaN, toInteger_eq, Spec.argInt, Arg.toFloat, Arg.isDefined,
+      Spec.ltI, ofInt_zero, h20]
+    by_cases c : lt (Spec.toInteger v) zero = true <;> simp [c]
+
+/-- C06.range_errors (toPrecision), lower bound: finite receiver, ToInteger(arg) ≤ 21 -/
+theorem toPrecision_range_partial (L : Lib) (s : Bool) (m : Nat) (e : Int) (lg v : FV)
+    (h21 : Spec.gtI (Spec.toInteger v) 21 = false) :
+    toPrecision L (.fin s m e) lg (.num v) = .rangeError ↔ Spec.toPrecision (.fin s m e) (.num v) = .rangeError := by
+  simp only [toPrecision, Spec.toPrecision, isNaN, toInteger_eq, Spec.ltI, ofInt_one, h21]
+  by_cases c : lt (Spec.toInteger v) one = true <;> simp [c]
+
+
+/-! ## Number.prototype.toString(radix) on integers -/
+
+theorem truncAbs_ne_zero (m : Nat) (e : Int) (hm : m ≠ 0) (hi : isIntegral m e = true) : truncAbs m e ≠ 0 := by
+  unfold truncAbs
+  unfold isIntegral at hi
+  split
+  · exact Nat.mul_ne_zero hm (Nat.pos_iff_ne_zero.mp (Nat.pow_pos (by decide)))
+  · rename_i he
+    simp [he] at hi
+    intro h0
+    have hpos : 0 < 2 ^ (-e).toNat := Nat.pow_pos (by decide)
+    have := Nat.div_add_mod m (2 ^ (-e).toNat)
+    rw [h0, hi] at this
+    simp at this
+    exact hm this.symm
+
+/-- C06.radix_partial: for every finite non-zero INTEGRAL x with |x| < 2^63 and every radix,
+    otto's numberToStringRadix (FormatInt of int64(x)) is the exact positional expansion. -/
+theorem radix_partial (s : Bool) (m : Nat) (e : Int) (radix : Nat) (hm : m ≠ 0)
+    (hint : isIntegral m e = true) (hsmall : truncAbs m e < 2 ^ 63) :
+    numberToStringRadix (.fin s m e) radix = (if s then [45] else []) ++ Spec.radixStr (truncAbs m e) radix := by
+  have ht := truncAbs_ne_zero m e hm hint
+  have hg : goInt (.fin s m e) = (if s then -(truncAbs m e : Int) else (truncAbs m e : Int)) := by
+    simp only [goInt, C05.goInt64, truncInt]
+    cases s <;> simp <;> omega
+  simp only [numberToStringRadix, hm, if_false, hg, Spec.radixStr, ht]
+  generalize truncAbs m e = t at *
+  cases s with
+  | false =>
+    have h2 : ¬ ((t : Int) = 0) := by omega
+    have h3 : ¬ ((t : Int) < 0) := by omega
+    simp [formatInt, h2, h3, ht]
+  | true =>
+    have h2 : ¬ (-(t : Int) = 0) := by omega
+    have h3 : (-(t : Int) < 0) := by omega
+    simp [formatInt, h3, ht]
+
+
+theorem radix_arg_table : ∀ r : Fin 37, 2 ≤ r.val →
+    lt (Spec.toInteger (ofInt r.val)) (ofInt 2) = false ∧ lt (ofInt 36) (Spec.toInteger (ofInt r.val)) = false ∧
+    goInt (Spec.toInteger (ofInt r.val)) = r.val ∧ Spec.intOf (Spec.toInteger (ofInt r.val)) = r.val := by
+  decide +kernel
+
+/-- C06.radix_partial at the level of Number.prototype.toString: every radix 2..36 except 10, every
+    finite non-zero integral receiver below 2^63 in magnitude: model = spec. -/
+theorem radix_eq_spec (L : Lib) (s : Bool) (m : Nat) (e : Int) (lg : FV) (r : Fin 37) (h2 : 2 ≤ r.val)
+    (h10 : r.val ≠ 10) (hm : m ≠ 0) (hint : isIntegral m e = true) (hsmall : truncAbs m e < 2 ^ 63) :
+    some (numberToString L (.fin s m e) lg (.num (ofInt r.val))) = Spec.toStringRadix (.fin s m e) (.num (ofInt r.val)) := by
+  obtain ⟨t1, t2, t3, t4⟩ := radix_arg_table r h2
+  have h10' : ¬ ((r.val : Int) = 10) := by omega
+  simp only [numberToString, Spec.toStringRadix, toInteger_eq, Spec.ltI, Spec.gtI, t1, t2, t3, t4, h10']
+  simp [radix_partial s m e r.val hm hint hsmall, hm, hint, h10]
+
+
 /-! ## non-vacuity of the layout theorem and witnesses of the deviation regions -/
 
 def fv (b : UInt64) : FV := decode b
